@@ -38,7 +38,23 @@ use crate::reader::MidImportReorg;
 use crate::sut::{Flavour, Snapshot, Sut, SutConfig};
 
 pub const KNOWN_V2: &str = "C13 v2 partial last range root depends on import depth";
+pub const EARLY_RETURN: &str = "C13 import with a target at or below the highest stored block returns early and keeps data rolled back below the target";
 const RANGE: u64 = 15;
+/// pseudo shard number of the scripted scenarios of main.rs (replay files carry it)
+pub const SCRIPTED_SHARD: u64 = 999;
+
+#[derive(Clone, Copy, Debug)]
+pub enum Step {
+    Forward(usize),
+    /// the node rolls back to its block with this number (and stays there until the next Forward)
+    RollBackToNumber(u64),
+    Import(u64, Via),
+    /// import(target) during which, after `reads` answers of the chain-sync server, the node
+    /// switches to a fork that drops its last `depth` blocks and has `new_blocks` new ones
+    ImportWithReorg(u64, usize, usize, usize),
+    Restart,
+    Prune(u64),
+}
 
 #[derive(Clone, Copy, Debug, PartialEq)]
 pub enum Via {
@@ -77,7 +93,8 @@ pub struct History<'a> {
     ref_counter: u64,
     root_cache: HashMap<(String, u64), (String, String)>,
     dead: bool,
-    imports: u64,
+    reported_once: BTreeSet<String>,
+    witnesses: u32,
     verbose: bool,
 }
 
@@ -93,9 +110,10 @@ impl<'a> History<'a> {
     pub fn new(mon: &'a mut Monitor, dir: &Path, template: Option<PathBuf>, shard: u64, index: u64, verbose: bool) -> History<'a> {
         let mut rng = mon.rng("c13-history", shard * 1_000_000 + index);
         let profile = ChainProfile {
-            sparse_numbers: rnd::chance(&mut rng, 1, 2),
+            sparse_numbers: rnd::chance(&mut rng, 1, 3),
             empty_block_pct: *rnd::pick(&mut rng, &[0, 20, 50, 85]),
             drought_toggle_pct: *rnd::pick(&mut rng, &[0, 3, 8]),
+            first_number: None,
         };
         let flavour = if rnd::chance(&mut rng, 1, 2) { Flavour::Signer } else { Flavour::Aggregator };
         let signer = flavour == Flavour::Signer;
@@ -103,7 +121,10 @@ impl<'a> History<'a> {
             flavour,
             pool_size: if signer { 1 } else { 1 + rnd::usize_below(&mut rng, 3) },
             prune_keep: if signer && rnd::chance(&mut rng, 1, 2) { Some(rnd::range(&mut rng, 0, 60)) } else { None },
-            chunk: if signer && rnd::chance(&mut rng, 1, 2) { Some(*rnd::pick(&mut rng, &[5, 10, 15, 16, 30, 50, 100])) } else { None },
+            // ByChunk computes intermediate targets `highest stored + chunk`; with gaps in the numbering
+            // these are not existing block numbers (cannot happen on Cardano, see node.rs), so the
+            // decorator is only used with consecutive numbers
+            chunk: if signer && !profile.sparse_numbers && rnd::chance(&mut rng, 2, 3) { Some(*rnd::pick(&mut rng, &[5, 10, 15, 16, 30, 50, 100])) } else { None },
             max_roll_forwards_per_poll: *rnd::pick(&mut rng, &[1, 2, 3, 7, 20, 100, 1000]),
             sqlite_mktree: signer && rnd::chance(&mut rng, 1, 4),
         };
@@ -132,7 +153,8 @@ impl<'a> History<'a> {
             ref_counter: 0,
             root_cache: HashMap::new(),
             dead: false,
-            imports: 0,
+            reported_once: BTreeSet::new(),
+            witnesses: 0,
             verbose,
         }
     }
@@ -159,10 +181,45 @@ impl<'a> History<'a> {
         })
     }
 
+    /// After an oracle-1 witness the stored state is corrupt: the store is wiped (new empty database,
+    /// new importer, new connection) so that the rest of the history still explores something.
+    fn reset_store(&mut self) {
+        self.events.push(json!("store wiped by the harness after a witness"));
+        self.mon.count("store wiped after a witness");
+        self.sut = None;
+        remove_db(&self.db_path);
+        if let Some(x) = self.expected.take() {
+            Self::drop_ref(x.sut);
+        }
+        self.stored = Snapshot::default();
+        self.floor.store(0, Ordering::SeqCst);
+        self.first_import_after_restart = false;
+        self.witnesses += 1;
+        if self.witnesses >= 4 || !self.open_sut() {
+            self.dead = true;
+        }
+    }
+
+    /// a witness that does not corrupt the stored state (no wipe needed); reported once per history
+    fn violate_keep(&mut self, signature: &str, what: &str, details: Value) {
+        if self.reported_once.insert(signature.to_string()) {
+            self.violate(signature, what, details);
+        } else {
+            self.mon.count(&format!("witness (repeated in the same history): {signature}"));
+        }
+    }
+
     fn violate(&mut self, signature: &str, what: &str, details: Value) {
         let r = self.replay(details);
         if self.verbose {
             println!("VIOLATION {signature}\n  {what}\n{}", serde_json::to_string_pretty(&r["details"]).unwrap_or_default());
+        }
+        self.mon.count(&format!("witness: {signature}"));
+        // debugging aid: VERIF_C13_FOCUS=<substring> writes replay files for matching classes only
+        if let Ok(f) = std::env::var("VERIF_C13_FOCUS") {
+            if !signature.contains(&f) {
+                return;
+            }
         }
         self.mon.violation(signature, what, r);
     }
@@ -231,14 +288,14 @@ impl<'a> History<'a> {
                 let c = match rnd::below(&mut self.rng, 100) {
                     0..=19 => Some((Some(rnd::usize_below(&mut self.rng, len)), "any earlier point")),
                     20..=31 => len.checked_sub(2 + rnd::usize_below(&mut self.rng, 5)).map(|p| (Some(p), "shallow")),
-                    32..=37 => Some((None, "origin")),
-                    38..=47 => lowest.map(|p| (Some(p), "first stored block")),
-                    48..=57 => match lowest {
+                    32..=33 => Some((None, "origin")),
+                    34..=47 => lowest.map(|p| (Some(p), "first stored block")),
+                    48..=52 => match lowest {
                         Some(0) => Some((None, "before the first stored block")),
                         Some(p) => Some((Some(rnd::usize_below(&mut self.rng, p)), "before the first stored block")),
                         None => None,
                     },
-                    58..=69 => highest.and_then(|p| match rnd::below(&mut self.rng, 3) {
+                    53..=69 => highest.and_then(|p| match rnd::below(&mut self.rng, 3) {
                         0 => Some((Some(p), "highest stored block")),
                         1 => p.checked_sub(1).map(|q| (Some(q), "highest stored block - 1")),
                         _ => (p + 1 < len).then_some((Some(p + 1), "highest stored block + 1")),
@@ -264,6 +321,24 @@ impl<'a> History<'a> {
                 None => return,
             }
         };
+        let removed = self.apply_rollback(keep, requested);
+        // A real node only switches to a longer chain: most of the time the new fork is longer than
+        // what was removed; sometimes the history lets the importer look at the node while the new
+        // fork is still shorter, or before it has any block.
+        match rnd::below(&mut self.rng, 10) {
+            0..=6 => {
+                let n = removed + 1 + rnd::usize_below(&mut self.rng, 10);
+                self.ev_forward(n);
+            }
+            7..=8 => {
+                let n = 1 + rnd::usize_below(&mut self.rng, removed.max(1));
+                self.ev_forward(n);
+            }
+            _ => {}
+        }
+    }
+
+    fn apply_rollback(&mut self, keep: Option<usize>, requested: &str) -> usize {
         // effect relative to what is stored
         let (effect, point, boundary) = {
             let node = self.node.lock().unwrap();
@@ -303,15 +378,7 @@ impl<'a> History<'a> {
             self.perturbed = true;
         }
         self.events.push(json!({"roll_back": {"to(number,slot)": point, "class": requested, "effect_on_store": effect, "blocks_removed": removed}}));
-        // most of the time the node continues on a new fork right away
-        if rnd::chance(&mut self.rng, 4, 5) {
-            let n = match rnd::below(&mut self.rng, 3) {
-                0 => 1 + rnd::usize_below(&mut self.rng, removed.max(1)),
-                1 => removed + 1 + rnd::usize_below(&mut self.rng, 10),
-                _ => 1 + rnd::usize_below(&mut self.rng, 40),
-            };
-            self.ev_forward(n.min(60));
-        }
+        removed
     }
 
     async fn ev_restart(&mut self) {
@@ -342,7 +409,7 @@ impl<'a> History<'a> {
         self.events.push(json!({"prune": {"keep": keep, "floor_after": self.floor.load(Ordering::SeqCst), "error": r.as_ref().err().map(|e| format!("{e:#}"))}}));
         if let Err(e) = r {
             self.violate("C13 explicit prune fails", &format!("prune({keep}) returned an error: {e:#}"), json!({}));
-            self.dead = true;
+            self.reset_store();
             return;
         }
         self.perturbed = true;
@@ -365,11 +432,11 @@ impl<'a> History<'a> {
         self.mon.count("comparisons:state unchanged");
         let d = compare(&self.stored, &exp.snapshot, floor, None, &exp.hashes);
         if !d.is_empty() {
-            let sig = format!("{} (state changed by {after_what}, no import in between)", d.class());
+            let sig = format!("{} (state changed by {after_what}, no import in between)", d.class(floor));
             let what = format!("after {after_what} the stored state differs from the state of the last synchronisation (target {})", exp.target);
             let details = json!({"diff": d.to_json()});
             self.violate(&sig, &what, details);
-            self.dead = true;
+            self.reset_store();
         }
     }
 
@@ -398,14 +465,26 @@ impl<'a> History<'a> {
             },
             _ => rnd::range(&mut self.rng, 0, tip),
         };
-        Some(t)
+        // target 0 is left out: ChainDataImporterByChunk starts from `highest stored or 0` and loops
+        // `while intermediate < target`, so import(0) on an empty store is a no-op there while the
+        // plain importer stores a block numbered 0 (noted in the report, not a roll-back matter)
+        Some(self.existing_number(t.max(1)))
+    }
+
+    /// number of the canonical block at or below `t` (the first block's number when there is none):
+    /// every block number <= tip exists on Cardano, so a target is always an existing number
+    fn existing_number(&self, t: u64) -> u64 {
+        let n = self.node.lock().unwrap();
+        match n.pos_at_or_below_number(t) {
+            Some(p) => n.at(p).number,
+            None => n.chain.first().map(|id| n.blocks[*id].number).unwrap_or(t),
+        }
     }
 
     async fn ev_import(&mut self, target: u64, via: Via, reorg: Option<(usize, usize, usize)>) {
         if self.sut.is_none() {
             return;
         }
-        self.imports += 1;
         let before = self.stored.clone();
         let non_monotone = before.highest_number().map(|h| target <= h).unwrap_or(false);
         if non_monotone {
@@ -415,7 +494,6 @@ impl<'a> History<'a> {
         {
             let mut l = sut.log.lock().unwrap();
             l.relayed.clear();
-            l.asked.clear();
         }
         if let Some((reads, depth, newb)) = reorg {
             let mut seed = [0u8; 32];
@@ -423,20 +501,25 @@ impl<'a> History<'a> {
             *sut.script.lock().unwrap() = Some(MidImportReorg { reads_left: reads, depth, new_blocks: newb, rng: ChaCha20Rng::from_seed(seed) });
         }
         let res: Result<Option<String>, String> = match via {
-            Via::Importer => sut.importer.import(BlockNumber(target)).await.map(|_| None),
-            Via::LegacyBuilder => sut.sign_legacy(target).await.map(Some),
-            Via::V2Builder => sut.sign_v2(target).await.map(Some),
-        }
-        .map_err(|e| format!("{e:#}"));
+            Via::Importer => sut.importer.import(BlockNumber(target)).await.map(|_| None).map_err(|e| format!("{e:#}")),
+            Via::LegacyBuilder | Via::V2Builder => {
+                let s = if via == Via::LegacyBuilder { sut.sign_legacy(target).await } else { sut.sign_v2(target).await };
+                match s.import_error {
+                    Some(e) => Err(e),
+                    None => Ok(Some(s.root)),
+                }
+            }
+        };
         // a scripted re-organisation that did not fire is cancelled
         let reorg_fired = reorg.is_some() && sut.script.lock().unwrap().take().is_none();
         if reorg_fired {
             self.perturbed = true;
             self.mon.count("mid_import_reorg_fired");
         }
+        let root_cause: Option<&'static str>;
         let (cause, relayed, consulted, timeout, buffer_rb) = {
             let l = sut.log.lock().unwrap();
-            let consulted = !(l.relayed.is_empty() && l.asked.is_empty());
+            let consulted = !l.relayed.is_empty();
             let timeout = l.relayed.iter().any(|r| matches!(r, crate::reader::Relayed::Timeout));
             // a roll-back to a block relayed earlier in the same import (candidate for the
             // streamer's in-buffer handling)
@@ -455,6 +538,7 @@ impl<'a> History<'a> {
                     _ => {}
                 }
             }
+            root_cause = oracle::root_cause(&l, &before);
             (oracle::cause(&l, &before, self.first_import_after_restart), oracle::relayed_json(&l), consulted, timeout, buffer_rb)
         };
         if buffer_rb {
@@ -497,6 +581,9 @@ impl<'a> History<'a> {
                     // modelled chainsync time-out (client waiting at the tip, nothing new): the real
                     // reader fails the same way; the state is whatever was stored so far
                     self.mon.count("import_error:model_timeout");
+                    if std::env::var("VERIF_C13_DEBUG").is_ok() {
+                        eprintln!("MODEL TIMEOUT shard {} history {} cfg {} events {}", self.shard, self.index, self.cfg.describe(), serde_json::to_string(&self.events).unwrap_or_default());
+                    }
                     self.expected.take().map(|x| Self::drop_ref(x.sut));
                     return;
                 }
@@ -509,9 +596,12 @@ impl<'a> History<'a> {
                 };
                 self.mon.eval();
                 self.note_nontrivial("import-error");
-                let sig = format!("C13 import fails: {label} ({cause})");
-                self.violate(&sig, &format!("import({target}) via {via_s} returned an error: {e}"), json!({"error": e, "stored_before": summary(&before)}));
-                self.dead = true;
+                let sig = match root_cause {
+                    Some(rc) => rc.to_string(),
+                    None => format!("C13 import fails: {label} ({cause})"),
+                };
+                self.violate(&sig, &format!("import({target}) via {via_s} returned an error ({label}; {cause}): {e}"), json!({"error": e, "stored_before": summary(&before)}));
+                self.reset_store();
                 return;
             }
         };
@@ -530,7 +620,12 @@ impl<'a> History<'a> {
                 return;
             }
         };
-        if let Err(e) = rsut.importer.import(BlockNumber(target)).await {
+        // Depth the store is compared at. An import that consulted the node with a target below the
+        // highest stored block (the pinned importer never does: it returns early; a repaired one may)
+        // legitimately keeps the canonical blocks above its target: the state must then equal a
+        // fresh import up to the highest stored block.
+        let depth = if consulted { target.max(after.highest_number().unwrap_or(0)) } else { target };
+        if let Err(e) = rsut.importer.import(BlockNumber(depth)).await {
             // the fresh import of the canonical chain itself fails: not a convergence verdict
             self.mon.inconclusive(&format!("reference import failed: {e:#}"));
             self.dead = true;
@@ -550,23 +645,92 @@ impl<'a> History<'a> {
         if self.perturbed {
             self.note_nontrivial("o1");
         }
+        // the fresh import itself against the specification model (catches what a fresh run and the
+        // perturbed run would get wrong alike)
+        {
+            let model = {
+                let n = self.node.lock().unwrap();
+                crate::model::expected(&n, &chain_now, depth)
+            };
+            match model {
+                Ok(m) => {
+                    self.mon.count("comparisons:fresh import vs specification model");
+                    let d = compare(&rsnap, &m, 0, None, &hashes_now);
+                    if !d.is_empty() {
+                        let sig = format!("C13 fresh import differs from the specification model: {}", d.class(0));
+                        let what = format!("a fresh importer on a fresh database importing the canonical chain once up to {depth} does not leave the state the specification model states");
+                        self.violate_keep(&sig, &what, json!({"diff(stored=fresh import, expected=model)": d.to_json(), "fresh_import": summary(&rsnap), "model": summary(&m)}));
+                    }
+                }
+                Err(e) => self.mon.inconclusive(&format!("harness: model: {e}")),
+            }
+        }
         let mut prefix_ref: Option<Sut> = None;
+        if consulted && depth > target {
+            // Only reachable with an importer that asks the node although its target is below the
+            // highest stored block (not the pinned one). The statement does not say what must be
+            // stored above the target then; the lenient reading is judged: (a) the part at or below
+            // the target equals a fresh import up to the target, (b) everything stored is part of a
+            // fresh import up to the highest stored block (roots of ranges that are complete only
+            // above the target may be absent). No root comparison at this step.
+            self.mon.count("comparisons:consulted import below the highest stored block (lenient)");
+            let mut dd = compare(&after, &rsnap, floor, None, &hashes_now);
+            dd.roots_missing.retain(|r| r.1 <= target + 1);
+            dd.legacy_missing.retain(|r| r.1 <= target + 1);
+            let mut bad = if dd.is_empty() { None } else { Some(dd) };
+            if bad.is_none() {
+                match self.fresh(&chain_now) {
+                    Ok(t_ref) => {
+                        if t_ref.importer.import(BlockNumber(target)).await.is_ok() {
+                            if let Ok(tsnap) = Snapshot::read(&t_ref.path) {
+                                let d = compare(&after, &tsnap, floor, Some(target), &hashes_now);
+                                if !d.is_empty() {
+                                    bad = Some(d);
+                                }
+                            }
+                        }
+                        Self::drop_ref(t_ref);
+                    }
+                    Err(e) => self.mon.inconclusive(&format!("harness: reference database: {e}")),
+                }
+            }
+            Self::drop_ref(rsut);
+            if let Some(x) = self.expected.take() {
+                Self::drop_ref(x.sut);
+            }
+            if let Some(d) = bad {
+                let sig = match root_cause {
+                    Some(rc) => rc.to_string(),
+                    None if d.class(floor) == oracle::PRUNED_ROOTS_CLASS => oracle::PRUNED_RANGE.to_string(),
+                    None => format!("{} ({cause})", d.class(floor)),
+                };
+                let what = format!("after import({target}) via {via_s}, which consulted the node with a target below the highest stored block ({depth}), the stored state is not a fresh import up to {target} plus canonical data up to {depth}: {} ({cause})", d.class(floor));
+                self.violate(&sig, &what, json!({"diff": d.to_json(), "stored_before": summary(&before)}));
+                self.reset_store();
+            }
+            return;
+        }
         if consulted {
             self.mon.count("comparisons:full state vs fresh import");
             let d = compare(&after, &rsnap, floor, None, &hashes_now);
             if !d.is_empty() {
-                let sig = format!("{} ({cause})", d.class());
+                let sig = match root_cause {
+                    Some(rc) => rc.to_string(),
+                    None if d.class(floor) == oracle::PRUNED_ROOTS_CLASS => oracle::PRUNED_RANGE.to_string(),
+                    None => format!("{} ({cause})", d.class(floor)),
+                };
                 let what = format!(
-                    "after import({target}) via {via_s} the stored state differs from a fresh import of the canonical chain up to {target} (blocks compared from number {floor})"
+                    "after import({target}) via {via_s} the stored state differs from a fresh import of the canonical chain up to {depth} (blocks compared from number {floor}): {} ({cause})",
+                    d.class(floor)
                 );
                 let details = json!({"diff": d.to_json(), "stored_before": summary(&before), "fresh_import": summary(&rsnap),
                     "first_import_after_restart": was_first_after_restart});
                 self.violate(&sig, &what, details);
-                self.dead = true;
+                self.reset_store();
                 Self::drop_ref(rsut);
                 return;
             }
-            if let Some(old) = self.expected.replace(Expected { target, hashes: hashes_now.clone(), snapshot: rsnap.clone(), sut: rsut }) {
+            if let Some(old) = self.expected.replace(Expected { target: depth, hashes: hashes_now.clone(), snapshot: rsnap.clone(), sut: rsut }) {
                 Self::drop_ref(old.sut);
             }
         } else {
@@ -574,11 +738,11 @@ impl<'a> History<'a> {
                 self.mon.count("comparisons:state unchanged");
                 let d = compare(&after, &exp.snapshot, floor, None, &exp.hashes);
                 if !d.is_empty() {
-                    let sig = format!("{} (state changed by an import that did not consult the node)", d.class());
+                    let sig = format!("{} (state changed by an import that did not consult the node)", d.class(floor));
                     let what = format!("import({target}) did not consult the node but the stored state no longer equals the state of the last synchronisation (target {})", exp.target);
                     let details = json!({"diff": d.to_json()});
                     self.violate(&sig, &what, details);
-                    self.dead = true;
+                    self.reset_store();
                     Self::drop_ref(rsut);
                     return;
                 }
@@ -586,14 +750,16 @@ impl<'a> History<'a> {
             self.mon.count("comparisons:part at or below the target vs fresh import");
             let d = compare(&after, &rsnap, floor, Some(target), &hashes_now);
             if !d.is_empty() {
-                let sig = format!("{} ({cause})", d.class());
+                // one cause, one class: whatever differs, it differs because the importer returned
+                // early without asking the node
+                let sig = EARLY_RETURN.to_string();
                 let what = format!(
-                    "after import({target}) via {via_s} (which returned early: highest stored block {:?} >= target) the stored blocks <= {target} / range roots ending <= {} differ from a fresh import of the canonical chain up to {target}",
-                    before.highest_number(), target + 1
+                    "after import({target}) via {via_s} (which returned early: highest stored block {:?} >= target) the stored blocks <= {target} / range roots ending <= {} differ from a fresh import of the canonical chain up to {target}: {}",
+                    before.highest_number(), target + 1, d.class(floor)
                 );
                 let details = json!({"diff": d.to_json(), "stored_before": summary(&before), "fresh_import": summary(&rsnap)});
                 self.violate(&sig, &what, details);
-                self.dead = true;
+                self.reset_store();
                 Self::drop_ref(rsut);
                 return;
             }
@@ -601,7 +767,7 @@ impl<'a> History<'a> {
         }
 
         // ---------------------------------------------------------------- oracle 2
-        self.oracle2(target, via, builder_root, &chain_now, prefix_ref.as_ref()).await;
+        self.oracle2(target, via, builder_root, &chain_now).await;
         if let Some(p) = prefix_ref {
             Self::drop_ref(p);
         }
@@ -637,7 +803,7 @@ impl<'a> History<'a> {
 
     /// roots offered by a fresh node that imports exactly up to `b` (through the real builders, the
     /// way a signer does: compute_protocol_message imports, then computes the root)
-    async fn exact_roots(&mut self, chain: &[usize], b: u64) -> Option<(String, String)> {
+    async fn exact_roots(&mut self, chain: &[usize], b: u64) -> Option<(String, String, String)> {
         let key = {
             let n = self.node.lock().unwrap();
             let view_tip = chain.iter().map(|id| &n.blocks[*id]).take_while(|x| x.number <= b).last().map(|x| x.hash_hex()).unwrap_or_else(|| "origin".into());
@@ -645,7 +811,7 @@ impl<'a> History<'a> {
         };
         if let Some(v) = self.root_cache.get(&key) {
             self.mon.count("exact-depth reference roots (cached)");
-            return Some(v.clone());
+            return Some((key.0, v.0.clone(), v.1.clone()));
         }
         let s = match self.fresh(chain) {
             Ok(s) => s,
@@ -655,15 +821,44 @@ impl<'a> History<'a> {
                 return None;
             }
         };
-        let l = s.sign_legacy(b).await.unwrap_or_else(|e| format!("error: {e}"));
-        let v = s.sign_v2(b).await.unwrap_or_else(|e| format!("error: {e}"));
+        // the v2 builder imports and offers its root; the legacy root is then read without a second
+        // import (with gaps in the block numbering a second import would scan again and could run
+        // into the modelled chainsync time-out at the tip)
+        let sv = s.sign_v2(b).await;
+        if let Some(e) = sv.import_error {
+            self.mon.inconclusive(&format!("reference import (exact depth {b}) failed: {e}"));
+            self.dead = true;
+            Self::drop_ref(s);
+            return None;
+        }
+        let v = sv.root;
+        let l = s.root_legacy(b).await;
         Self::drop_ref(s);
         self.mon.count("exact-depth reference imports");
-        self.root_cache.insert(key, (l.clone(), v.clone()));
-        Some((l, v))
+        // the fresh exact-depth node against the specification model of the beacon roots
+        {
+            let (m_l, m_v) = {
+                let n = self.node.lock().unwrap();
+                crate::model::beacon_roots(&n, chain, b)
+            };
+            let same = |real: &str, model: &str| if model == "error" { real.starts_with("error") } else { real == model };
+            self.mon.count("comparisons:exact-depth root vs specification model");
+            if !same(&v, &m_v) {
+                self.violate_keep("C13 v2 root offered by a fresh node that imported exactly to the beacon differs from the specification model",
+                    &format!("beacon {b}: the real builder over a fresh exact-depth import offers {v}, the model states {m_v}"), json!({"beacon": b}));
+            }
+            if let Some(m_l) = m_l {
+                if !same(&l, &m_l) {
+                    self.violate_keep("C13 legacy root offered by a fresh node that imported exactly to the beacon differs from the specification model",
+                        &format!("beacon {b}: the real builder over a fresh exact-depth import offers {l}, the model states {m_l}"), json!({"beacon": b}));
+                }
+            }
+        }
+        self.root_cache.insert(key.clone(), (l.clone(), v.clone()));
+        Some((key.0, l, v))
     }
 
-    async fn oracle2(&mut self, target: u64, via: Via, builder_root: Option<String>, chain_now: &[usize], prefix_ref: Option<&Sut>) {
+    async fn oracle2(&mut self, target: u64, via: Via, builder_root: Option<String>, chain_now: &[usize]) {
         let first_number = {
             let n = self.node.lock().unwrap();
             chain_now.first().map(|id| n.blocks[*id].number).unwrap_or(0)
@@ -680,10 +875,9 @@ impl<'a> History<'a> {
             // (2a) same depth
             let (depth, d_l, d_v, deep_roots) = match &self.expected {
                 Some(exp) => (exp.target, exp.sut.root_legacy(b).await, exp.sut.root_v2(b).await, exp.snapshot.roots.clone()),
-                None => match prefix_ref {
-                    // no synchronisation state known (an import failed on a modelled time-out before)
-                    Some(_) | None => return,
-                },
+                // no synchronisation state known (the store was wiped, or an import failed on a
+                // modelled time-out, and no import has consulted the node since)
+                None => return,
             };
             self.mon.eval();
             self.mon.count_n("comparisons:root offered vs fresh node at the same depth", 2);
@@ -700,22 +894,30 @@ impl<'a> History<'a> {
                     }
                 }
             }
-            if s_l != d_l || s_v != d_v {
+            // A pruning node computes the on-the-fly root of a partial last range from blocks it
+            // may have pruned already when the beacon lies below its prune threshold. Beacons that
+            // old are never signed by a pruning signer (the pruner keeps `network_security_parameter`
+            // blocks below the highest range root), so this is recorded as a diagnostic only.
+            let floor = self.floor.load(Ordering::SeqCst);
+            let pruned_partial = b % RANGE != RANGE - 1 && floor > b / RANGE * RANGE;
+            if s_l == d_l && s_v != d_v && pruned_partial {
+                self.mon.count("diag: v2 root at a partial beacon below the prune threshold differs (on-the-fly range root over pruned blocks)");
+            } else if s_l != d_l || s_v != d_v {
                 let which = if s_v != d_v { "v2" } else { "legacy" };
                 let sig = format!("C13 {which} root offered differs from a fresh node that imported to the same depth");
                 let what = format!("beacon {b}: stored state offers legacy={s_l} v2={s_v}; a fresh node that imported the same chain to {depth} offers legacy={d_l} v2={d_v}");
                 self.violate(&sig, &what, json!({"beacon": b, "depth": depth}));
-                self.dead = true;
+                self.reset_store();
                 return;
             }
             // (2b) exact depth
-            let Some((e_l, e_v)) = self.exact_roots(chain_now, b).await else { return };
+            let Some((tiph, e_l, e_v)) = self.exact_roots(chain_now, b).await else { return };
             self.mon.count_n("comparisons:root offered vs fresh node that imported exactly to the beacon", 2);
             let partial = b % RANGE != RANGE - 1;
             let covering = deep_roots.iter().any(|r| r.0 <= b && b < r.1);
             if depth > b {
-                let tiph = self.root_cache.keys().find(|k| k.1 == b).map(|k| k.0.clone()).unwrap_or_default();
-                self.mon.nontrivial_str(&format!("o2|{tiph}|{depth}|{b}|{}", self.shard * 1_000_000 + self.index));
+                // distinct (chain prefix up to the beacon, depth, beacon)
+                self.mon.nontrivial_str(&format!("o2|{tiph}|{depth}|{b}"));
             }
             if partial && covering {
                 self.mon.count("beacons strictly inside a block range whose full root is already stored");
@@ -750,13 +952,60 @@ impl<'a> History<'a> {
 
     // ------------------------------------------------------------------------------------ driver
 
+    /// scripted history over a chain with consecutive block numbers (first block 1 or 0) and at
+    /// least one transaction per block; used for the fixed, hand-sized scenarios of main.rs
+    pub fn scripted(mon: &'a mut Monitor, dir: &Path, template: Option<PathBuf>, index: u64, cfg: SutConfig, verbose: bool) -> History<'a> {
+        let mut h = History::new(mon, dir, template, SCRIPTED_SHARD, index, verbose);
+        h.profile = ChainProfile { sparse_numbers: false, empty_block_pct: 0, drought_toggle_pct: 0, first_number: Some(1) };
+        h.node = Arc::new(Mutex::new(Node::new(h.profile.clone())));
+        h.cfg = cfg;
+        h
+    }
+
+    pub async fn run_script(&mut self, name: &str, script: &[Step]) {
+        if !self.open_sut() {
+            return;
+        }
+        self.events.push(json!({"scripted_scenario": name}));
+        for st in script {
+            if self.dead {
+                break;
+            }
+            match st {
+                Step::Forward(n) => self.ev_forward(*n),
+                Step::RollBackToNumber(n) => {
+                    let keep = self.node.lock().unwrap().pos_at_or_below_number(*n);
+                    self.apply_rollback(keep, "scripted");
+                }
+                Step::Import(t, via) => self.ev_import(*t, *via, None).await,
+                Step::ImportWithReorg(t, reads, depth, newb) => self.ev_import(*t, Via::Importer, Some((*reads, *depth, *newb))).await,
+                Step::Restart => self.ev_restart().await,
+                Step::Prune(k) => self.ev_prune(*k).await,
+            }
+        }
+        self.mon.count("scripted scenarios");
+        let r = self.replay(json!(null));
+        self.mon.sample(json!({"scripted_scenario": name, "sut_config": r["sut_config"], "events": r["events"]}));
+        if let Some(x) = self.expected.take() {
+            Self::drop_ref(x.sut);
+        }
+        self.sut = None;
+        remove_db(&self.db_path);
+    }
+
     pub async fn run(&mut self) {
         if !self.open_sut() {
             return;
         }
         let initial = rnd::range(&mut self.rng, 20, 120) as usize;
         self.ev_forward(initial);
-        let steps = rnd::range(&mut self.rng, 6, 24);
+        // most histories start with an import, so that the roll-backs that follow meet stored data
+        if rnd::chance(&mut self.rng, 4, 5) {
+            if let Some(t) = self.pick_target() {
+                self.ev_import(t, Via::Importer, None).await;
+            }
+        }
+        let steps = rnd::range(&mut self.rng, 8, 26);
         for _ in 0..steps {
             if self.dead {
                 break;
@@ -769,6 +1018,12 @@ impl<'a> History<'a> {
                 }
                 22..=43 => self.ev_rollback(),
                 44..=71 => {
+                    // nothing new on the node since the last import: let it produce blocks first
+                    let (tip, h) = (self.node.lock().unwrap().tip_number(), self.stored.highest_number());
+                    if tip.is_some() && h >= tip && rnd::chance(&mut self.rng, 3, 4) {
+                        let n = 1 + rnd::usize_below(&mut self.rng, 40);
+                        self.ev_forward(n);
+                    }
                     if let Some(t) = self.pick_target() {
                         let via = *rnd::pick(&mut self.rng, &[Via::Importer, Via::Importer, Via::LegacyBuilder, Via::V2Builder, Via::V2Builder]);
                         self.ev_import(t, via, None).await;
@@ -778,7 +1033,8 @@ impl<'a> History<'a> {
                     // the chain re-organises while the streamer is polling; target at / near the tip
                     let (tip, h) = (self.node.lock().unwrap().tip_number(), self.stored.highest_number());
                     if let Some(tip) = tip {
-                        let t = tip.saturating_sub(rnd::below(&mut self.rng, 3));
+                        let back = rnd::below(&mut self.rng, 3);
+                        let t = self.existing_number(tip.saturating_sub(back));
                         let to_read = t.saturating_sub(h.unwrap_or(0)) as usize;
                         let reads = rnd::usize_below(&mut self.rng, to_read + 3);
                         let depth = 1 + rnd::usize_below(&mut self.rng, 12);
